@@ -111,7 +111,7 @@ class Thread(threading.Thread):
         if self.is_alive():
             # Timed out
             return
-        if self._future_.exception():
+        if self._future_.exception() is not None:
             raise self._future_.exception()
 
     def done(self) -> bool:
@@ -131,6 +131,9 @@ class Thread(threading.Thread):
         super().join(timeout)
         if self.is_alive():
             raise TimeoutError
+        if self._future_.exception() is not None:
+            # `Future.result` tests the exception by its truth value.
+            raise self._future_.exception()
         return self._future_.result()
 
     def exception(self, timeout=None):
